@@ -197,10 +197,6 @@ def final_checks(s):
     elif s.child_set('a') != s.child_set('b'):
         s.fail('child-sa-sets-differ', f'after the drain the endpoints hold different CHILD_SAs: a={s.child_set("a")} '
                                        f'b={s.child_set("b")}')
-    for side, ep in s.eps.items():
-        for sa in ep.sas:
-            if sa.state == State.REKEYED:
-                s.fail('rekeyed-left-behind', f'endpoint {side} still lists a REKEYED IKE_SA after the drain')
 
 
 def fingerprint(case, info):
